@@ -281,9 +281,9 @@ theorem sum_scatterRows_mul [NonUnitalNonAssocSemiring R] (n : Nat) (idx : List 
 
 /-! ## F. Sliced -/
 
-theorem slicedMatmat_eq [NonUnitalNonAssocSemiring R] (act : MatF R → MatF R) (A : MatF R)
+theorem slicedMatmat_eq [NonUnitalNonAssocSemiring R] (act : MatF R → MatV R) (A : MatF R)
     (rA cA b : Nat)
-    (hact : ∀ Y i j, i < rA → j < b → act Y i j = ∑ q ∈ range cA, A i q * Y q j)
+    (hact : ∀ Y i j, i < rA → j < b → (act Y).f i j = ∑ q ∈ range cA, A i q * Y q j)
     (rs cs : List Nat) (hrs : ∀ t ∈ rs, t < rA) (hcs : ∀ t ∈ cs, t < cA) (hnd : cs.Nodup)
     (X : MatF R) (i j : Nat) (hi : i < rs.length) (hj : j < b) :
     (slicedMatmat act rs cs X).f i j
@@ -292,9 +292,9 @@ theorem slicedMatmat_eq [NonUnitalNonAssocSemiring R] (act : MatF R → MatF R) 
   rw [MatV.of_f, hact _ _ _ (hrs _ (getD_mem_of_lt rs i hi)) hj]
   exact sum_mul_scatterRows cA cs X j (fun q => A (rs.getD i 0) q) hnd hcs
 
-theorem slicedRmatmat_eq [NonUnitalNonAssocSemiring R] (ract : MatF R → MatF R) (A : MatF R)
+theorem slicedRmatmat_eq [NonUnitalNonAssocSemiring R] (ract : MatF R → MatV R) (A : MatF R)
     (rA cA b : Nat)
-    (hract : ∀ Y i j, i < b → j < cA → ract Y i j = ∑ q ∈ range rA, Y i q * A q j)
+    (hract : ∀ Y i j, i < b → j < cA → (ract Y).f i j = ∑ q ∈ range rA, Y i q * A q j)
     (rs cs : List Nat) (hrs : ∀ t ∈ rs, t < rA) (hcs : ∀ t ∈ cs, t < cA) (hnd : rs.Nodup)
     (X : MatF R) (i j : Nat) (hi : i < b) (hj : j < cs.length) :
     (slicedRmatmat ract rs cs X).f i j
@@ -407,11 +407,11 @@ theorem vstack_map_mmul [NonUnitalNonAssocSemiring R] (c : Nat) (blocks : List (
 
 /-- the same with the blocks given by actions that agree with `A_t ·` on the window -/
 theorem vstack_acts_eq [NonUnitalNonAssocSemiring R] (c b : Nat)
-    (acts : List (Nat × (MatF R → MatF R))) (As : List (MatF R))
-    (h : List.Forall₂ (fun (a : Nat × (MatF R → MatF R)) (A : MatF R) =>
-      ∀ Y i j, i < a.1 → j < b → a.2 Y i j = ∑ q ∈ range c, A i q * Y q j) acts As)
+    (acts : List (Nat × (MatF R → MatV R))) (As : List (MatF R))
+    (h : List.Forall₂ (fun (a : Nat × (MatF R → MatV R)) (A : MatF R) =>
+      ∀ Y i j, i < a.1 → j < b → (a.2 Y).f i j = ∑ q ∈ range c, A i q * Y q j) acts As)
     (X : MatF R) (I j : Nat) (hj : j < b) :
-    vstack (acts.map (fun a => (a.1, a.2 X))) I j
+    vstack (acts.map (fun a => (a.1, (a.2 X).f))) I j
       = ∑ q ∈ range c, vstack ((acts.map Prod.fst).zip As) I q * X q j := by
   induction h generalizing I with
   | nil =>
@@ -424,7 +424,7 @@ theorem vstack_acts_eq [NonUnitalNonAssocSemiring R] (c b : Nat)
     obtain ⟨r, act⟩ := a
     simp only [List.map_cons, List.zip_cons_cons, vstack_cons]
     by_cases hI : I < r
-    · have hd' : act X I j = ∑ q ∈ range c, A I q * X q j := hd X I j hI hj
+    · have hd' : (act X).f I j = ∑ q ∈ range c, A I q * X q j := hd X I j hI hj
       rw [if_pos hI, hd']
       apply Finset.sum_congr rfl
       intro q _
@@ -453,11 +453,11 @@ theorem foldr_addM_apply [AddMonoid R] (l : List (MatF R)) (i j : Nat) :
     rfl
 
 theorem hcatTerms_sum [NonUnitalNonAssocSemiring R] (r b : Nat)
-    (acts : List (Nat × (MatF R → MatF R))) (As : List (MatF R))
-    (h : List.Forall₂ (fun (a : Nat × (MatF R → MatF R)) (A : MatF R) =>
-      ∀ Y i j, i < r → j < b → a.2 Y i j = ∑ q ∈ range a.1, A i q * Y q j) acts As)
+    (acts : List (Nat × (MatF R → MatV R))) (As : List (MatF R))
+    (h : List.Forall₂ (fun (a : Nat × (MatF R → MatV R)) (A : MatF R) =>
+      ∀ Y i j, i < r → j < b → (a.2 Y).f i j = ∑ q ∈ range a.1, A i q * Y q j) acts As)
     (off : Nat) (X : MatF R) (i j : Nat) (hi : i < r) (hj : j < b) :
-    ((hcatTerms off acts X).map (fun m => m i j)).sum
+    ((hcatTerms off acts X).map (fun m => m.f i j)).sum
       = ∑ J ∈ range (acts.map Prod.fst).sum,
           hstack ((acts.map Prod.fst).zip As) i J * X (off + J) j := by
   induction h generalizing off with
@@ -465,7 +465,7 @@ theorem hcatTerms_sum [NonUnitalNonAssocSemiring R] (r b : Nat)
   | @cons a A l₁ l₂ hd _ ih =>
     obtain ⟨c, act⟩ := a
     simp only [hcatTerms, List.map_cons, List.sum_cons, List.zip_cons_cons]
-    have hd' : act (rowsFrom off X) i j = ∑ q ∈ range c, A i q * rowsFrom off X q j :=
+    have hd' : (act (rowsFrom off X)).f i j = ∑ q ∈ range c, A i q * rowsFrom off X q j :=
       hd _ i j hi hj
     rw [Finset.sum_range_add, ih (off + c), hd']
     congr 1
@@ -479,18 +479,21 @@ theorem hcatTerms_sum [NonUnitalNonAssocSemiring R] (r b : Nat)
 
 /-- `Concatenated._matmat`, axis 1 -/
 theorem hcatMatmat_eq [NonUnitalNonAssocSemiring R] (r b : Nat)
-    (acts : List (Nat × (MatF R → MatF R))) (As : List (MatF R))
-    (h : List.Forall₂ (fun (a : Nat × (MatF R → MatF R)) (A : MatF R) =>
-      ∀ Y i j, i < r → j < b → a.2 Y i j = ∑ q ∈ range a.1, A i q * Y q j) acts As)
+    (acts : List (Nat × (MatF R → MatV R))) (As : List (MatF R))
+    (h : List.Forall₂ (fun (a : Nat × (MatF R → MatV R)) (A : MatF R) =>
+      ∀ Y i j, i < r → j < b → (a.2 Y).f i j = ∑ q ∈ range a.1, A i q * Y q j) acts As)
     (X : MatF R) (i j : Nat) (hi : i < r) (hj : j < b) :
     (hcatMatmat acts X).f i j
       = ∑ J ∈ range (acts.map Prod.fst).sum,
           hstack ((acts.map Prod.fst).zip As) i J * X J j := by
   unfold hcatMatmat
-  rw [MatV.of_f, foldl_addM_apply, hcatTerms_sum r b acts As h 0 X i j hi hj]
+  simp only [MatV.of_f]
+  rw [foldl_addM_apply, List.map_map]
+  have e : ((fun m : MatF R => m i j) ∘ fun x : MatV R => x.f) = fun m => m.f i j := rfl
+  rw [e, hcatTerms_sum r b acts As h 0 X i j hi hj]
   simp [zeroM]
 
-theorem zip_triples (L : List (Nat × (MatF R → MatF R) × MatF R)) :
+theorem zip_triples (L : List (Nat × (MatF R → MatV R) × MatF R)) :
     ((L.map (fun t => (t.1, t.2.1))).map Prod.fst).zip (L.map (fun t => t.2.2))
       = L.map (fun t => (t.1, t.2.2)) := by
   induction L with
@@ -501,15 +504,15 @@ theorem zip_triples (L : List (Nat × (MatF R → MatF R) × MatF R)) :
 
 /-- the same, members given as triples `(c_t, act_t, A_t)` -/
 theorem hcatMatmat_eq_triples [NonUnitalNonAssocSemiring R] (r b : Nat)
-    (L : List (Nat × (MatF R → MatF R) × MatF R))
+    (L : List (Nat × (MatF R → MatV R) × MatF R))
     (h : ∀ t ∈ L, ∀ Y i j, i < r → j < b →
-      t.2.1 Y i j = ∑ q ∈ range t.1, t.2.2 i q * Y q j)
+      (t.2.1 Y).f i j = ∑ q ∈ range t.1, t.2.2 i q * Y q j)
     (X : MatF R) (i j : Nat) (hi : i < r) (hj : j < b) :
     (hcatMatmat (L.map (fun t => (t.1, t.2.1))) X).f i j
       = ∑ J ∈ range (L.map (fun t => t.1)).sum,
           hstack (L.map (fun t => (t.1, t.2.2))) i J * X J j := by
-  have hF : List.Forall₂ (fun (a : Nat × (MatF R → MatF R)) (A : MatF R) =>
-      ∀ Y i j, i < r → j < b → a.2 Y i j = ∑ q ∈ range a.1, A i q * Y q j)
+  have hF : List.Forall₂ (fun (a : Nat × (MatF R → MatV R)) (A : MatF R) =>
+      ∀ Y i j, i < r → j < b → (a.2 Y).f i j = ∑ q ∈ range a.1, A i q * Y q j)
       (L.map (fun t => (t.1, t.2.1))) (L.map (fun t => t.2.2)) := by
     rw [List.forall₂_map_left_iff, List.forall₂_map_right_iff, List.forall₂_same]
     exact h
@@ -522,11 +525,11 @@ theorem hcatMatmat_eq_triples [NonUnitalNonAssocSemiring R] (r b : Nat)
 /-! ## H. Sum -/
 
 theorem sumTerms_sum [NonUnitalNonAssocSemiring R] (r c b : Nat)
-    (acts : List (MatF R → MatF R)) (As : List (MatF R))
-    (h : List.Forall₂ (fun (a : MatF R → MatF R) (A : MatF R) =>
-      ∀ Y i j, i < r → j < b → a Y i j = ∑ q ∈ range c, A i q * Y q j) acts As)
+    (acts : List (MatF R → MatV R)) (As : List (MatF R))
+    (h : List.Forall₂ (fun (a : MatF R → MatV R) (A : MatF R) =>
+      ∀ Y i j, i < r → j < b → (a Y).f i j = ∑ q ∈ range c, A i q * Y q j) acts As)
     (X : MatF R) (i j : Nat) (hi : i < r) (hj : j < b) :
-    ((acts.map (fun f => f X)).map (fun m => m i j)).sum
+    ((acts.map (fun f => f X)).map (fun m => m.f i j)).sum
       = ∑ q ∈ range c, (As.foldr addM zeroM) i q * X q j := by
   induction h with
   | nil => simp [zeroM]
@@ -540,19 +543,22 @@ theorem sumTerms_sum [NonUnitalNonAssocSemiring R] (r c b : Nat)
 
 /-- `Sum._matmat` -/
 theorem sumMatmat_eq [NonUnitalNonAssocSemiring R] (r c b : Nat)
-    (acts : List (MatF R → MatF R)) (As : List (MatF R))
-    (h : List.Forall₂ (fun (a : MatF R → MatF R) (A : MatF R) =>
-      ∀ Y i j, i < r → j < b → a Y i j = ∑ q ∈ range c, A i q * Y q j) acts As)
+    (acts : List (MatF R → MatV R)) (As : List (MatF R))
+    (h : List.Forall₂ (fun (a : MatF R → MatV R) (A : MatF R) =>
+      ∀ Y i j, i < r → j < b → (a Y).f i j = ∑ q ∈ range c, A i q * Y q j) acts As)
     (X : MatF R) (i j : Nat) (hi : i < r) (hj : j < b) :
     (sumMatmat acts X).f i j = ∑ q ∈ range c, (As.foldr addM zeroM) i q * X q j := by
   unfold sumMatmat
-  rw [MatV.of_f, foldl_addM_apply, sumTerms_sum r c b acts As h X i j hi hj]
+  simp only [MatV.of_f]
+  rw [foldl_addM_apply, List.map_map]
+  have e : ((fun m : MatF R => m i j) ∘ fun x : MatV R => x.f) = fun m => m.f i j := rfl
+  rw [e, sumTerms_sum r c b acts As h X i j hi hj]
   simp [zeroM]
 
 /-- the same, members given as pairs `(act_t, A_t)` -/
 theorem sumMatmat_eq_pairs [NonUnitalNonAssocSemiring R] (r c b : Nat)
-    (L : List ((MatF R → MatF R) × MatF R))
-    (h : ∀ t ∈ L, ∀ Y i j, i < r → j < b → t.1 Y i j = ∑ q ∈ range c, t.2 i q * Y q j)
+    (L : List ((MatF R → MatV R) × MatF R))
+    (h : ∀ t ∈ L, ∀ Y i j, i < r → j < b → (t.1 Y).f i j = ∑ q ∈ range c, t.2 i q * Y q j)
     (X : MatF R) (i j : Nat) (hi : i < r) (hj : j < b) :
     (sumMatmat (L.map Prod.fst) X).f i j
       = ∑ q ∈ range c, ((L.map Prod.snd).foldr addM zeroM) i q * X q j := by
